@@ -71,9 +71,20 @@ pub fn score_set(rng: &mut Rng) -> Vec<Score> {
     v
 }
 
-pub fn c14(c: &mut Collector, seed: u64, shard: u64, nshards: u64, thorough: bool) {
+pub fn c14(c: &mut Collector, seed: u64, shard: u64, nshards: u64, thorough: bool, small: bool) {
     let mut rng = Rng::new(mix3(seed, 0, 0xC14));
-    let set = score_set(&mut rng);
+    let mut set = score_set(&mut rng);
+    if small {
+        // under Miri: the sentinels, eight mate distances per side and the raw extremes (21 x 21 pairs)
+        set = vec![Score::Min, Score::Max];
+        for d in [0u16, 1, 255, 256, 32768, 65535] {
+            set.push(Score::WhiteMateIn(d));
+            set.push(Score::BlackMateIn(d));
+        }
+        for r in [i32::MIN, i32::MIN + 1, -1, 0, 1, i32::MAX - 1, i32::MAX] {
+            set.push(Score::Raw(r));
+        }
+    }
     c.add("score-set-size", set.len() as u64);
     // all pairs and triples over the set, dealt to shards by first index
     'outer: for (i, &a) in set.iter().enumerate() {
@@ -86,6 +97,9 @@ pub fn c14(c: &mut Collector, seed: u64, shard: u64, nshards: u64, thorough: boo
             c.distinct(fnv(format!("{}|{}", s2(a), s2(b)).as_bytes()));
             if !check_pair(c, a, b) {
                 continue 'outer;
+            }
+            if small {
+                continue; // under Miri: every pair of the boundary set through every operator, no triples
             }
             for &d in &set {
                 c.count("triples");
@@ -101,6 +115,9 @@ pub fn c14(c: &mut Collector, seed: u64, shard: u64, nshards: u64, thorough: boo
                 }
             }
         }
+    }
+    if small {
+        return;
     }
     // every one of the 2 x 65536 mate scores against the whole set
     for x in 0..=65535u32 {
